@@ -803,7 +803,7 @@ fn byron_alphabet(ctx: &mut Ctx) -> RefByron {
         1 => Some(vec![0x42]),
         _ => Some((0..50u8).collect()),
     };
-    let magic = *ctx.pick_free(&[None, Some(1u32), Some(2), Some(1097911063), Some(u32::MAX)]);
+    let magic = *ctx.pick_free(&[None, Some(1u32), Some(2), Some(1097911063), Some(u32::MAX), Some(764824073), Some(764824072), Some(0), Some(23), Some(24), Some(255), Some(256), Some(65536)]);
     let root = vec![*ctx.pick_free(&[0x00u8, 0x5a, 0xff]); 28];
     let typ = ctx.choose_free(3) as u64;
     if payload.is_some() {
